@@ -30,11 +30,13 @@ EXPLANATION = ('(a) all 12 ISA tables: unbounded generic theorem (well-formed de
                'skipped and counted in coverage.stages.llvm_mc).')
 TRUSTED = ['tools/props/c08_trace.py (symbolic tracer/exporter; cross-checked against the real encode() on every run)',
            'Python int arithmetic == Coq Z arithmetic',
-           'Spec/RV32Decode.v is a faithful reading of the RISC-V unprivileged ISA manual (RV32I/M formats and opcode tables)',
+           'Spec/RV32Decode.v, Spec/RV32Encode.v, Spec/RVCDecode.v are faithful readings of the RISC-V unprivileged ISA manual '
+           '(RV32I/M formats and opcode tables; RV32C formats, quadrant listings, register-prime encoding)',
            'the per-mnemonic expectation table rv_expect (assembly operand order, pseudo-instruction expansions mv/nop/j/bgt/ble/bgtu/bleu)']
-ASSUMPTIONS = ['operand ranges of integer operands are the ranges of the token fields they reach (ppci declares none); unencoded '
+ASSUMPTIONS = ['RVC reference theorem: bounded to the architectural operand domain (rvc_domain) and to operands for which the '
+               'reference instruction exists (rvc_valid); floating-point compressed loads/stores are not decoded',
+               'operand ranges of integer operands are the ranges of the token fields they reach (ppci declares none); unencoded '
                'label operands are modelled as 0 and relocations are outside this property',
-               'RVC (compressed) classes: table theorems only, no reference decoder',
                'x86_64/arm/thumb/msp430: most classes are custom (data-dependent encode()), see custom counts in coverage.stages']
 
 QUICK_VARIANTS_PER_ISA = 60
@@ -137,6 +139,170 @@ def apply_view(view, ops):
         else:
             out.append(it[1])
     return out
+
+
+# ------------------------------------------------------------------ independent RV32C reference (Python)
+def rvc_decode16(bs):
+    """independent RV32C decoder (integer subset) written from the manual; mirrors Spec/RVCDecode.v conventions"""
+    if len(bs) != 2:
+        return None
+    w = bs[0] | (bs[1] << 8)
+    B = lambda lo, n: _bits(w, lo, n)
+    op, f3, rd, rs2 = B(0, 2), B(13, 3), B(7, 5), B(2, 5)
+    rdp, rs1p, b12 = 8 + B(2, 3), 8 + B(7, 3), B(12, 1)
+    uimm6 = b12 * 32 + B(2, 5)
+    imm6 = _sext(6, uimm6)
+    off_lw = B(10, 3) * 8 + B(6, 1) * 4 + B(5, 1) * 64
+    off_j = _sext(12, b12 * 2048 + B(11, 1) * 16 + B(9, 2) * 256 + B(8, 1) * 1024 + B(7, 1) * 64 + B(6, 1) * 128 + B(3, 3) * 2 + B(2, 1) * 32)
+    off_b = _sext(9, b12 * 256 + B(10, 2) * 8 + B(5, 2) * 64 + B(3, 2) * 2 + B(2, 1) * 32)
+    k = (op, f3)
+    if k == (0, 0):
+        return ('c.addi4spn', [rdp, B(11, 2) * 16 + B(7, 4) * 64 + B(6, 1) * 4 + B(5, 1) * 8])
+    if k == (0, 2):
+        return ('c.lw', [rdp, off_lw, rs1p])
+    if k == (0, 6):
+        return ('c.sw', [rdp, off_lw, rs1p])
+    if k == (1, 0):
+        return ('c.addi', [rd, rd, imm6])
+    if k == (1, 1):
+        return ('c.jal', [off_j])
+    if k == (1, 2):
+        return ('c.li', [rd, imm6])
+    if k == (1, 3):
+        if rd == 2:
+            return ('c.addi16sp', [_sext(10, b12 * 512 + B(6, 1) * 16 + B(5, 1) * 64 + B(3, 2) * 128 + B(2, 1) * 32)])
+        return ('c.lui', [rd, uimm6])
+    if k == (1, 4):
+        sel = B(10, 2)
+        if sel == 0:
+            return ('c.srli', [rs1p, rs1p, uimm6])
+        if sel == 1:
+            return ('c.srai', [rs1p, rs1p, uimm6])
+        if sel == 2:
+            return ('c.andi', [rs1p, rs1p, imm6])
+        if b12 == 0:
+            return (['c.sub', 'c.xor', 'c.or', 'c.and'][B(5, 2)], [rs1p, rdp])
+        return None
+    if k == (1, 5):
+        return ('c.j', [off_j])
+    if k == (1, 6):
+        return ('c.beqz', [rs1p, off_b])
+    if k == (1, 7):
+        return ('c.bnez', [rs1p, off_b])
+    if k == (2, 0):
+        return ('c.slli', [rd, rd, uimm6])
+    if k == (2, 2):
+        return ('c.lwsp', [rd, b12 * 32 + B(4, 3) * 4 + B(2, 2) * 64])
+    if k == (2, 4):
+        if b12 == 0:
+            return ('c.jr', [rd]) if rs2 == 0 else ('c.mv', [rd, rs2])
+        if rs2 == 0:
+            return ('c.ebreak', []) if rd == 0 else ('c.jalr', [rd])
+        return ('c.add', [rd, rs2])
+    if k == (2, 6):
+        return ('c.swsp', [rs2, B(9, 4) * 4 + B(7, 2) * 64])
+    return None
+
+
+def rvc_expect(mn, nops):
+    O = lambda i: ('op', i)
+    if nops == 0:
+        return ('c.addi', [('const', 0)] * 3) if mn == 'c.nop' else (mn, []) if mn == 'c.ebreak' else None
+    if nops == 1:
+        if mn in ('c.jal', 'c.j', 'c.jr', 'c.jalr'):
+            return (mn, [O(0)])
+        return (mn, [('sext', 10, 0)]) if mn == 'c.addi16sp' else None
+    if nops == 2:
+        if mn in ('c.mv', 'c.lwsp', 'c.swsp', 'c.lui', 'c.sub', 'c.xor', 'c.or', 'c.and', 'c.beqz', 'c.addi4spn'):
+            return (mn, [O(0), O(1)])
+        if mn == 'c.bneqz':
+            return ('c.bnez', [O(0), O(1)])
+        return (mn, [O(0), ('sext', 6, 1)]) if mn == 'c.li' else None
+    if nops == 3:
+        if mn in ('c.slli', 'c.srli', 'c.srai', 'c.lw', 'c.sw'):
+            return (mn, [O(0), O(1), O(2)])
+        if mn == 'c.andi':
+            return (mn, [O(0), O(1), ('sext', 6, 2)])
+        if mn == 'c.addi':
+            return (mn, [O(1), O(1), ('sext', 6, 2)])
+    return None
+
+
+def rvc_op_domain(o, extended=False, signed_view=False):
+    """values an operand field can hold (mirror of Proofs/C08_rvc.v op_domain); extended: also what the encoder
+    accepts beyond it: negative values of an immediate that is signed in the reference format, any register for an
+    operand that is not encoded (range laxness of unsigned fields is C10's subject and not probed here)"""
+    if o['kind'] == 'reg':
+        dom = [v for v in o['nums'] if v % o['div'] == 0 and 0 <= v // o['div'] - o['sub'] < (1 << o['width'])]
+        if extended and o['width'] == 0:
+            dom = list(o['nums'])
+        return dom
+    if o['kind'] == 'imm':
+        lo = -(1 << (o['width'] - 1)) if (o['signed'] and o['width'] >= 1) else 0
+        ts = list(range(lo, lo + (1 << o['width'])))
+        if extended and lo == 0 and signed_view:      # the reference format takes a signed immediate here
+            ts += list(range(-(1 << o['width']), 0))
+        return [(t + o['sub']) * o['div'] for t in ts]
+    return [0]
+
+
+def rvc_valid(mn, args):
+    if mn == 'c.mv':
+        return args[1] != 0
+    if mn in ('c.jalr', 'c.jr'):
+        return args[0] != 0
+    if mn == 'c.lui':
+        return args[0] not in (0, 2)
+    return True
+
+
+def rvc_disagreements(ctx, T, descs):
+    """entries of table_riscv_rvc ++ nonwf_riscv_rvc on which the independent RV32C reference disagrees.
+    Exhaustive over the architectural domain; beyond it (negative immediates, unencoded registers) first witness."""
+    import itertools
+    out, corner, covered = [], [], 0
+    for i, d in enumerate(descs):
+        if d['tokens'] != [(16, False)] or len(d['syntax']) < 3:
+            continue
+        exp = rvc_expect(''.join(d['syntax'][:3]), len(d['ops']))
+        if exp is None:
+            continue
+        covered += 1
+        found = None
+        for ext in (False, True):
+            sv = {it[2] for it in exp[1] if it[0] == 'sext'}
+            for ops in itertools.product(*[rvc_op_domain(o, ext, k in sv) for k, o in enumerate(d['ops'])]):
+                ops = list(ops)
+                r = real_encode(T, d, ops)
+                if not isinstance(r, OkV):
+                    if not ext:
+                        found = (ops, r, None)
+                    else:
+                        continue
+                else:
+                    got = rvc_decode16(list(r.v))
+                    want = (exp[0], apply_view(exp[1], ops))
+                    if got is None or (got[0], list(got[1])) != (want[0], list(want[1])):
+                        if not rvc_valid(want[0], want[1]):
+                            # accepted by ppci although the reference instruction does not exist for these operands
+                            if not any(c[0] == i for c in corner):
+                                corner.append((i, ops, dict(cls=d['cls'], printed=str(T.instantiate(d['pycls'], d['vindex'], ops)),
+                                                            bytes=r.v.hex(), reference=list(got) if got else None, expected=list(want))))
+                            continue
+                        found = (ops, r, (got, want))
+                if found:
+                    break
+            if found:
+                break
+        if found:
+            ops, r, gw = found
+            try:
+                printed = str(T.instantiate(d['pycls'], d['vindex'], ops))
+            except Exception:   # noqa: BLE001
+                printed = '?'
+            out.append((i, ops, dict(cls=d['cls'], printed=printed, bytes=r.v.hex() if isinstance(r, OkV) else r.__name__,
+                                     reference=list(gw[0]) if gw and gw[0] else None, expected=list(gw[1]) if gw else None)))
+    return out, corner, covered
 
 
 # ------------------------------------------------------------------ operand sampling
@@ -246,8 +412,20 @@ def export_all(ctx):
             extra = ('(* table entries on which the independent RV32 reference disagrees, with a witness operand tuple *)\n'
                      'Definition rvref_bad_riscv : list (nat * list Z) := [%s].\n' % '; '.join(
                          '(%d%%nat, [%s])' % (i, '; '.join(T.cz(v) for v in ops)) for i, ops, _ in rvbad))
+        rvcbad, rvccorner = [], []
+        if nm == 'riscv_rvc':
+            rvcbad, rvccorner, ncov = rvc_disagreements(ctx, T, good + bad)
+            extra = ('(* entries of table_riscv_rvc ++ nonwf_riscv_rvc on which the independent RV32C reference disagrees, '
+                     'with a witness operand tuple the encoder accepts *)\n'
+                     'Definition rvcref_bad_riscv_rvc : list (nat * list Z) := [%s].\n' % '; '.join(
+                         '(%d%%nat, [%s])' % (i, '; '.join(T.cz(v) for v in ops)) for i, ops, _ in rvcbad))
+            extra += ('(* operand tuples ppci accepts although the printed instruction does not exist for them (the bits are '
+                      'another instruction) *)\n'
+                      'Definition rvcref_corner_riscv_rvc : list (nat * list Z) := [%s].\n' % '; '.join(
+                          '(%d%%nat, [%s])' % (i, '; '.join(T.cz(v) for v in ops)) for i, ops, _ in rvccorner))
         ctx.write_gen('Tab_isa_' + nm, text + extra)
-        info[nm] = dict(arch=an, good=good, bad=bad, custom=custom, skipped=skipped, total=ntotal, overlaps=ov, rvbad=rvbad)
+        info[nm] = dict(arch=an, good=good, bad=bad, custom=custom, skipped=skipped, total=ntotal, overlaps=ov, rvbad=rvbad,
+                        rvcbad=rvcbad, rvccorner=rvccorner)
     return T, info
 
 
@@ -291,7 +469,7 @@ def run(ctx):
                           wf_variants=len(x['good']), nonwf=[d['cls'] + '/' + d['variant'] for d in x['bad']],
                           custom_classes=len(x['custom']), custom=[c for c, _ in x['custom']],
                           overlap_pairs=len(x['overlaps'])) for nm, x in info.items()}
-    ok, _ = ctx.build(['Proofs/C08_tables.vo', 'Proofs/C08_rv.vo'])
+    ok, _ = ctx.build(['Proofs/C08_tables.vo', 'Proofs/C08_rv.vo', 'Proofs/C08_rvfull.vo', 'Proofs/C08_rvc.vo'])
     if ok:
         ctx.check_props('Props/C08.v')
     correspondence(ctx, T, info)
@@ -354,6 +532,9 @@ def search(ctx, T=None, info=None):
                 continue
             good = [d for d in descs if T.py_wf(d)]
             info[nm] = dict(good=good, bad=[], rvbad=rv_disagreements(ctx, T, good) if nm == 'riscv' else [])
+            if nm == 'riscv_rvc':
+                bad = [d for d in descs if not T.py_wf(d)]
+                info[nm]['rvcbad'], info[nm]['rvccorner'], _n = rvc_disagreements(ctx, T, good + bad)
     deep = (not ctx.quick()) or bool(ctx.failed_stages)
     n_per = 40 if deep else 6
     n_eval = 0
@@ -430,6 +611,13 @@ def search(ctx, T=None, info=None):
                                            'how_to_replay': 'PYTHONPATH=/repo python -c "from ppci.arch.m68k import instructions as I; '
                                                             'from ppci.arch.m68k.registers import D1, D2; print(I.%s(I.DataRegEa(D1), D2).encode().hex())"'
                                                             % d['cls'].title()})
+    for kind, lst in (('rvc-ref', info.get('riscv_rvc', {}).get('rvcbad', [])),
+                      ('rvc-ref-corner', info.get('riscv_rvc', {}).get('rvccorner', []))):
+        for (i, ops, r) in lst:
+            ctx.violation({'fn': kind, 'isa': 'riscv_rvc', 'class': r['cls'], 'args': ops, 'key': '%s:%s' % (kind, r['cls']),
+                           'printed': r['printed'], 'bytes': r['bytes'], 'expected': r['expected'], 'actual': r['reference'],
+                           'what': 'independent RV32C decoder (Spec/RVCDecode.v, Python mirror) reads a different '
+                                   'operation/operands than ppci prints'})
     ctx.cov['stages']['search_evaluations'] = n_eval
     ctx.cov['evaluations'] += n_eval
 
@@ -464,8 +652,12 @@ MANIFEST = {
             'the operands are recovered from the emitted bytes and that the fixed (opcode) fields read back their constants; per ISA it '
             'proves by reflection that every exported variant is well-formed (exceptions listed as data and proved non-well-formed) and that '
             'the exported list of class pairs which fixed bits do not separate is exact. Agreement with an INDEPENDENT reference decoder '
-            '(Spec/RV32Decode.v, written from the RISC-V manual) is proved ONLY for the RISC-V RV32I/M base classes (all register operands, '
-            'all immediates); no reference decoder exists here for the other ISAs (objdump is installed for x86 only and is not used), so for '
+            '(written from the RISC-V manual) is proved ONLY for RISC-V: unbounded (all registers, all in-range immediates) for the '
+            'RV32I/M base classes and pseudo-instructions of table_riscv - the reference decoder provably inverts the manual\'s field '
+            'packing of every format incl. the scrambled B/J offsets, and each ppci descriptor is matched bit by bit with the reference '
+            'layout of the mnemonic it prints - and bounded-exhaustive (every encodable register x every immediate value per class) for '
+            'the RV32C integer classes, where 5 classes are proved to DISAGREE (c.addi/c.andi sign bit, unencoded rs) and 3 accept '
+            'operands for which the bits are another instruction; no reference decoder exists here for the other ISAs (objdump is installed for x86 only and is not used), so for '
             'them only the ppci-internal half (injectivity/decodability of the encoding) is established. Classes with data-dependent '
             'encode() (most of x86_64, arm data processing, thumb, msp430) are listed as custom and are covered by no theorem. '
             'Additionally, as VALIDATION ONLY (search oracle, no proof): for riscv(+rvc), arm, thumb, x86_64, msp430, avr, m68k and mips '
